@@ -67,6 +67,7 @@ def blocksModel (c : Case) : DictModel :=
   { base with
     locate := fun q => if ok then some (Hash.locateBlocks d q) else none
     extract := fun i => if ok then some (Hash.extractBlocks d i) else none
+    tableScan := if ok then some ((Hash.tableBlocks d).map (·.filterMap id)) else none
     exact := true }
 
 def modelFor (c : Case) : DictModel :=
